@@ -234,6 +234,20 @@ CLAIMS["C12"] = dict(
     technique="static analysis: def-use provenance, dead-store / taint rules on port counts, dispatch exhaustiveness, table agreement with the Rust binding",
     design="DESIGN.md section 5, C12")
 
+CLAIMS["C01"] = dict(
+    text="Necessary conditions of validity that live in builder code shape, on all builder paths: mandated child positions "
+         "(Input/Output, entry/exit block, one Case per variant in index order) and every node-creating call's parent/child pair are "
+         "checked against the validity flags, op tags and tag lattice scanned from hugr-core/src/ops/{validate,tag,*}.rs; rows and "
+         "output counts flow from the given wires / the child Output into the container op on every path of every set_outputs "
+         "override (must-pass-through) and of branch_exit; every non-local value wire is preceded by a state-order edge from the "
+         "source node to the target's ancestor; the order port is addressed from the signature; the ancestor walk stops at a "
+         "function boundary.",
+    note="It is not a validity proof: acyclicity of regions, dominance between blocks, linear use, equality of types at both ends "
+         "of an edge and inhabitation of user-built constants are facts about the user's program values that no shape of builder "
+         "code implies; the reference validator cannot be built offline.",
+    technique="static analysis: typestate of child creation order, table agreement with the Rust validity tables, CFG must-pass-through",
+    design="DESIGN.md section 5, C01")
+
 NOT_APPLICABLE_REASON: dict[str, str] = {}
 
 
